@@ -120,4 +120,16 @@ PROPS = {
         "trusted_base": ["operator byte lengths are observed from the output (the encoder is a parameter of the theorems)"],
         "assumptions": ["distinct input locations (byte offsets) per instruction, as the default on_instr_loc gives"],
     },
+    "C10": {
+        "claim": "Lean theorems over the DWARF address logic (CodeAddressGenerator / CodeAddressConverter / the convert_address closures / convert_high_pc / the row loop of convert_line_program), on top of the offset bookkeeping proved exact in C11: an address that is the start of an input instruction converts to the start of the same instruction relative to the code-section contents (instruction_address_follows_instruction, row_address_is_operator_start); addresses of removed instructions convert to nothing and their rows are skipped; inside a sequence whose base does not follow the row in the output the emitted row designates exactly its instruction (row_follows_instruction), which holds for per-function sequences by monotonicity of offsets (posOf_mono); subprogram ranges are converted exactly when the size-LEB length is unchanged (subprogram_range_partial). The three points where the unchanged code violates the property are stated as kernel-checked counterexamples and listed as open findings. Correspondence: for synthesised DWARF v4/v5 (gimli::write) the converted rows and subprogram ranges read back with gimli::read are predicted exactly by the model. Oracle: every output row vs the decoded position of its instruction; every subprogram vs its function; {unchanged, inserted, GC}; per-function and multi-function sequences; LEB boundaries.",
+        "level_note": "Trusted: Lean kernel; hand model of debug/{expression,dwarf,mod}.rs address logic (sampled against the code); gimli reading/writing of DWARF (not modelled); binary searches modelled as lookups over sorted tables. Partial: three open findings (multi-function sequences, size-LEB length change, elided first instruction); rows naming file 0 in DWARF v5 are not generated yet (gimli::write 0.26 cannot emit them).",
+        "technique": "Lean 4 proof over the address-conversion model + exact-prediction correspondence on synthesised DWARF",
+        "lean_modules": ["Walrus.Props.C10"],
+        "gen": ["codestart"],
+        "suites": [{"name": "dwarf"}],
+        "rule": "generated modules with synthesised DWARF (one subprogram per function with low_pc = body start, one row per instruction; sequences per function or spanning 2-3 functions; versions 4 and 5) x {unchanged, inserted instructions, GC}; plus synthetic modules on both sides of the function-count and body-size LEB boundaries. Non-trivial: more than one function; distinct by request",
+        "strength": "address logic proved; property partial (three open findings); gimli sampled",
+        "trusted_base": ["gimli 0.26 read/write"],
+        "assumptions": ["well-formed DWARF only (the property says so)"],
+    },
 }
